@@ -20,7 +20,8 @@ SHAPES = {
     ]),
     "int_optfloat": dict(fields=[("a", "int"), ("b", "Optional[float]")], values=[
         ("1|None", dict(a=1, b=None)), ("1|1.0", dict(a=1, b=1.0)), ("1|1", dict(a=1, b=1)), ("-1|1.5", dict(a=-1, b=1.5)), ("1|2.5", dict(a=1, b=2.5)),
-        ("1|-1.5", dict(a=1, b=-1.5)), ("11|None", dict(a=11, b=None)), ("1|1e-9", dict(a=1, b=1e-9)), ("1|0.1", dict(a=1, b=0.1)),
+        ("1|-1.5", dict(a=1, b=-1.5)), ("11|None", dict(a=11, b=None)), ("-1|None", dict(a=-1, b=None)), ("-2|None", dict(a=-2, b=None)),  # hash(-1) == hash(-2) in CPython
+         ("1|1e-9", dict(a=1, b=1e-9)), ("1|0.1", dict(a=1, b=0.1)),
     ]),
     "float_only": dict(fields=[("a", "float")], values=[("1.5", dict(a=1.5)), ("2.5", dict(a=2.5)), ("0.5", dict(a=0.5)), ("1", dict(a=1)), ("1.0", dict(a=1.0)), ("15", dict(a=15.0))]),
     "enum": dict(fields=[("e", "Enum")], values=[("A", dict(e="A")), ("B", dict(e="B"))]),
